@@ -5,7 +5,9 @@ import (
 	"go/token"
 	"go/types"
 	"golang.org/x/tools/go/ssa"
+	"strings"
 
+	"iocvet/internal/absint"
 	"iocvet/internal/core"
 )
 
@@ -856,30 +858,52 @@ func fieldScanner(c *core.Ctx) *ssa.Function {
 	if n != 1 {
 		found = nil
 	}
-	// the scan starts where the definition's constructor calls into it: the callee of NewMeta that reaches the
-	// appending function (the append itself may sit in a helper of the scan)
+	// the scan starts at the first function on the way from the definition's constructor to that append which takes
+	// the holder to scan (the append itself may sit in a helper of the scan, the constructor may be split up)
 	if found != nil {
-		if nm := c.Func("component_definition", "NewMeta"); nm != nil {
-			var entries []*ssa.Function
-			for _, ci := range core.Calls(nm) {
-				cal := ci.Common().StaticCallee()
-				if cal == nil || !c.InScope(cal) || core.PkgOf(cal) != core.PkgOf(nm) {
-					continue
-				}
-				reach := map[*ssa.Function]bool{}
-				reachesCall(cal, func(*ssa.CallCommon) bool { return false }, reach)
-				if cal == found || reach[found] {
-					dup := false
-					for _, e := range entries {
-						dup = dup || e == cal
-					}
-					if !dup {
-						entries = append(entries, cal)
-					}
+		holder := c.Named("component_definition", "Holder")
+		takesHolder := func(f *ssa.Function) bool {
+			for _, p := range f.Params {
+				if holder != nil && core.NamedOf(p.Type()) == holder {
+					return true
 				}
 			}
-			if len(entries) == 1 {
-				found = entries[0]
+			return false
+		}
+		if nm := c.Func("component_definition", "NewMeta"); nm != nil && holder != nil {
+			level := []*ssa.Function{nm}
+			seen := map[*ssa.Function]bool{nm: true}
+			var entry *ssa.Function
+			for depth := 0; depth < 5 && entry == nil && len(level) > 0; depth++ {
+				var next, hits []*ssa.Function
+				for _, f := range level {
+					for _, g := range core.WithAnon(f) {
+						for _, ci := range core.Calls(g) {
+							cal := ci.Common().StaticCallee()
+							if cal == nil || seen[cal] || !c.InScope(cal) || core.PkgOf(cal) != core.PkgOf(nm) {
+								continue
+							}
+							seen[cal] = true
+							reach := map[*ssa.Function]bool{}
+							reachesCall(cal, func(*ssa.CallCommon) bool { return false }, reach)
+							if cal != found && !reach[found] {
+								continue
+							}
+							if takesHolder(cal) {
+								hits = append(hits, cal)
+							} else {
+								next = append(next, cal)
+							}
+						}
+					}
+				}
+				if len(hits) == 1 {
+					entry = hits[0]
+				}
+				level = next
+			}
+			if entry != nil {
+				found = entry
 			}
 		}
 	}
@@ -925,4 +949,272 @@ func forwardsToHeld(fn *ssa.Function) bool {
 		}
 	}
 	return true
+}
+
+// earlyReferenceImplRules: every in-scope implementation of the early-reference hook answers, when it reports no
+// error, with the component it was given or with something else that is not the nil constant: the dispatch hands each
+// answer to the next processor and finally wraps it, so a nil answer breaks every circular reference.
+func earlyReferenceImplRules(c *core.Ctx, r *core.Report, rule string) {
+	m := c.Roles().SmartEarlyRef
+	if m == nil {
+		r.Undecided(rule, "role:GetEarlyBeanReference", "", "the early-reference hook was not found")
+		return
+	}
+	n := 0
+	for _, fn := range c.Scope {
+		if fn.Parent() != nil || fn.Signature.Recv() == nil || fn.Name() != m.Name() || fn.Synthetic != "" {
+			continue
+		}
+		if !types.Identical(fn.Signature.Params(), m.Type().(*types.Signature).Params()) || !types.Identical(fn.Signature.Results(), m.Type().(*types.Signature).Results()) {
+			continue
+		}
+		n++
+		bad := ""
+		for _, ret := range core.Returns(fn) {
+			if len(ret.Results) != 2 {
+				continue
+			}
+			if !core.IsNilConst(ret.Results[1]) {
+				continue // an error is reported: the dispatch stops
+			}
+			if core.IsNilConst(core.Norm(ret.Results[0])) {
+				bad = "returns (nil, nil) at " + c.Pos(ret.Pos())
+			}
+		}
+		r.Check(bad == "", rule, "early-reference-impl@"+core.FnName(fn), c.FnPos(fn), "an early-reference hook that reports no error hands back a component, never the nil constant "+bad)
+	}
+	r.Count("early_reference_implementations", n)
+	r.Hold(rule, "early-reference-implementations", "", fmt.Sprintf("%d in-scope implementation(s) of the early-reference hook examined", n))
+}
+
+// componentMapCompleteRules: every singleton the registration loop fetches is recorded in the factory's component map
+// (the map the definition scan ranges over: what is missing there gets no definition and is invisible to every
+// lookup by type): no path from a successful fetch to the next iteration skips the map update.
+func componentMapCompleteRules(c *core.Ctx, r *core.Report, rule string) {
+	srGet := c.IfaceMethod("container", "SingletonRegistry", "GetSingleton")
+	srNames := c.IfaceMethod("container", "SingletonRegistry", "GetSingletonNames")
+	if srGet == nil || srNames == nil {
+		r.Undecided(rule, "role:SingletonRegistry", "", "SingletonRegistry.GetSingleton / GetSingletonNames not found")
+		return
+	}
+	n := 0
+	namesInvokers := map[*ssa.Function]bool{}
+	for _, fn := range c.Invokers(srNames) {
+		namesInvokers[fn] = true
+	}
+	for _, fn := range c.Invokers(srGet) {
+		if core.PkgOf(fn) == nil || !strings.HasSuffix(core.PkgOf(fn).Pkg.Path(), "container/factory") {
+			continue
+		}
+		// the registration loop itself, or a helper its body was moved into
+		if !namesInvokers[fn] && !withinRole(c, fn, func(f *ssa.Function) bool { return namesInvokers[f] }, 3) {
+			continue
+		}
+		for _, ci := range core.Calls(fn) {
+			call, ok := ci.(*ssa.Call)
+			if !ok || !core.IsInvoke(call.Common(), srGet) {
+				continue
+			}
+			loop := core.InnermostLoop(fn, call.Block())
+			// the map updates that record the fetched value
+			avoid := map[*ssa.BasicBlock]bool{}
+			for _, b := range fn.Blocks {
+				for _, in := range b.Instrs {
+					if mu, isMU := in.(*ssa.MapUpdate); isMU {
+						if ex, isEx := core.Norm(mu.Value).(*ssa.Extract); isEx && ex.Tuple == ssa.Value(call) {
+							avoid[b] = true
+						}
+					}
+				}
+			}
+			if len(avoid) == 0 {
+				continue // recorded elsewhere: the registered-components rule of C07 looks at it
+			}
+			n++
+			// from the fetch, can the next iteration - or a return that reports no error - be reached without passing
+			// a recording block?
+			seen := map[*ssa.BasicBlock]bool{}
+			skip := false
+			var walk func(b *ssa.BasicBlock)
+			walk = func(b *ssa.BasicBlock) {
+				if seen[b] || avoid[b] || skip {
+					return
+				}
+				seen[b] = true
+				if ret, isRet := b.Instrs[len(b.Instrs)-1].(*ssa.Return); isRet {
+					if !core.ReturnsError(fn.Signature) || core.ClassifyReturn(ret) != core.RetError {
+						skip = true
+					}
+					return
+				}
+				for _, s := range b.Succs {
+					if loop != nil && s == loop.Header {
+						skip = true
+						return
+					}
+					if loop != nil && !loop.Blocks[s] {
+						continue // leaving the loop early is judged by the rules about its exits
+					}
+					walk(s)
+				}
+			}
+			if !avoid[call.Block()] {
+				walk(call.Block())
+			}
+			r.Check(!skip, rule, "component-map-complete@"+core.FnName(fn), c.Pos(call.Pos()), "every singleton the registration loop fetches is recorded in the component map before the next one is fetched")
+		}
+	}
+	r.Floor(rule, "registration loops recording fetched singletons", n, 1)
+}
+
+// globalSettingsRules: app.Settings keeps every option it is given, in order, however often and with whatever it is
+// called (options registered for the process are applied to every start: dropping one drops what it adds).
+func globalSettingsRules(c *core.Ctx, r *core.Report, rule string) {
+	fn := c.Func("app", "Settings")
+	if fn == nil || len(fn.Params) != 1 {
+		r.Undecided(rule, "role:app.Settings", "", "app.Settings(ops ...SettingOption) not found")
+		return
+	}
+	t := newTbl(c)
+	ip := absint.New(t)
+	ip.IsLog, ip.InScope = core.IsLogCall, c.InScope
+	o := func(id string) absint.Value { return absint.NewTok(id, "option") }
+	o1, o2, o3 := o("o1"), o("o2"), o("o3")
+	bad := ""
+	for _, batch := range [][]absint.Value{{o1, o2}, {o3}, {o1}, {}} {
+		out := ip.Run(fn, []absint.Value{&absint.List{Elems: append([]absint.Value(nil), batch...), IsNil: len(batch) == 0}}, nil)
+		if out.Undecided != nil {
+			bad = "left the model: " + out.Undecided.Msg
+			break
+		}
+		if out.Panic != nil {
+			bad = "panics: " + out.Panic.Msg
+			break
+		}
+	}
+	got := ""
+	if bad == "" {
+		// the package-level list the function fills: the one global of its package it stores into
+		var g *ssa.Global
+		for _, b := range fn.Blocks {
+			for _, in := range b.Instrs {
+				if st, ok := in.(*ssa.Store); ok {
+					if x, isG := st.Addr.(*ssa.Global); isG {
+						g = x
+					}
+				}
+			}
+		}
+		for _, cal := range c.StaticCalleesInPkg(fn, nil) {
+			for _, b := range cal.Blocks {
+				for _, in := range b.Instrs {
+					if st, ok := in.(*ssa.Store); ok {
+						if x, isG := st.Addr.(*ssa.Global); isG && g == nil {
+							g = x
+						}
+					}
+				}
+			}
+		}
+		if g == nil {
+			bad = "no package-level list is written"
+		} else {
+			got = absint.Show(ip.GlobalValue(g))
+			if got != "[o1 o2 o3 o1]" {
+				bad = "after Settings(o1,o2); Settings(o3); Settings(o1); Settings() the list is " + got + ", expected [o1 o2 o3 o1]"
+			}
+		}
+	}
+	r.Check(bad == "", rule, "settings-keep-all@"+core.FnName(fn), c.FnPos(fn), "app.Settings keeps every option it is given, in the order given, also one it was given before "+bad)
+}
+
+// argumentNameRules: the names under which the library itself looks tag arguments up are the documented ones, up to the
+// case of their first letter (the one freedom the argument table grants): a frozen table.  A lookup under a name that
+// differs elsewhere never finds what users write.
+func argumentNameRules(c *core.Ctx, r *core.Report, rule string) {
+	tagArg := c.Named("component_definition", "TagArg")
+	if tagArg == nil {
+		r.Undecided(rule, "role:TagArg", "", "component_definition.TagArg not found")
+		return
+	}
+	documented := map[string]bool{"required": true, "qualifier": true, "validate": true, "embed": true, "returns": true, "mapper": true, "timeLayout": true}
+	lookups := map[*ssa.Function]bool{}
+	for _, name := range []string{"Find", "Has"} {
+		if m := c.DeclaredMethod(tagArg, name); m != nil {
+			lookups[m] = true
+		}
+	}
+	n := 0
+	seen := map[string]bool{}
+	for _, fn := range c.Scope {
+		for _, ci := range core.Calls(fn) {
+			cal := ci.Common().StaticCallee()
+			if cal == nil || !lookups[cal] || len(ci.Common().Args) < 2 {
+				continue
+			}
+			if ownerOf(core.TopLevel(fn)) == tagArg {
+				continue // the table's own methods pass names on
+			}
+			key := ci.Common().Args[1]
+			if cv, ok := key.(*ssa.Convert); ok {
+				key = cv.X
+			}
+			if ct, ok := key.(*ssa.ChangeType); ok {
+				key = ct.X
+			}
+			k, isConst := core.ConstString(key)
+			if !isConst {
+				continue // a name handed in by the caller
+			}
+			n++
+			norm := k
+			if norm != "" {
+				norm = strings.ToLower(norm[:1]) + norm[1:]
+			}
+			cons := "argument-name:" + k + "@" + core.FnName(fn)
+			if seen[cons] {
+				continue
+			}
+			seen[cons] = true
+			r.Check(documented[norm], rule, cons, c.Pos(ci.Pos()), "the library looks the argument up under a documented name (required, qualifier, validate, embed, returns, mapper, timeLayout), up to the case of its first letter")
+		}
+	}
+	r.Floor(rule, "argument lookups under a constant name", n, 6)
+}
+
+// refiledWhere: like refiled, keeping only the obligations the filter accepts.
+func refiledWhere(c *core.Ctx, r *core.Report, rule string, run func(sub *core.Report), keep func(o *core.Obligation) bool) {
+	sub := core.NewReport(r.Property, c.Tier, 0)
+	run(sub)
+	for _, o := range sub.Obls {
+		if keep != nil && !keep(o) {
+			continue
+		}
+		o2 := *o
+		o2.Rule = rule
+		r.Obls = append(r.Obls, &o2)
+	}
+}
+
+// exposerRowRules: rows of the creation routine's table.
+func exposerRowRules(c *core.Ctx, r *core.Report, rule string, want ...string) {
+	sub := core.NewReport("C03", c.Tier, 0)
+	l := findLifecycle(c, sub, rule)
+	if l == nil {
+		r.Undecided(rule, "role:creation routine", "", "creation routine not found")
+		return
+	}
+	rs, _, und := exposerTable(c, l)
+	cons := "exposer-table@" + core.FnName(l.exposer)
+	if und != "" {
+		r.Undecided(rule, cons, c.FnPos(l.exposer), "abstract interpretation left the model: "+und)
+		return
+	}
+	need, set := pickRows(exposerRows, want)
+	rs.report(c, r, l.exposer, func(row string) string {
+		if set[row] {
+			return rule
+		}
+		return ""
+	}, cons, need)
 }
